@@ -256,7 +256,16 @@ class Ctx:
             except hypothesis.errors.FailedHealthCheck as e:
                 raise HarnessError(f"Hypothesis health check failed in {sub}: {e}") from e
             except hypothesis.errors.Flaky as e:
-                # a case failed once and passed on re-execution: not attributable, report as harness error
+                # A case failed once and passed on re-execution.  The harness is a pure function of the case, so the
+                # code under test kept hidden state between executions.  Where that *is* the property (results depend
+                # only on the definition and the seed) it is reported as a violation whose replay runs the case
+                # repeatedly in one process; elsewhere it cannot be attributed and is a harness error.
+                if self.job.get("flaky_is_violation") and state["last"] is not None:
+                    case, f = state["last"]
+                    f2 = Fail("verdict_varies_between_executions|" + f.sig, f.detail)
+                    self._add_violation(sub, {"kind": "_repeat", "times": 8, "case": jsonable(case)}, f2)
+                    self.muted.add(f.sig)
+                    continue
                 raise HarnessError(f"flaky case in {sub}: {e}") from e
             break
 
